@@ -138,8 +138,14 @@ Lemma handle_getattr_ro s h : RO s (fst (handle_getattr s h)).
 Proof. unfold handle_getattr. handler. Qed.
 Lemma handle_access_ro s c h m : RO s (fst (handle_access s c h m)).
 Proof. unfold handle_access. handler. Qed.
+Lemma current_attrs_ro s h p : RO s (fst (current_attrs s h p)).
+Proof. unfold current_attrs. des; collect2; chain. Qed.
 Lemma handle_lookup_ro s h n : RO s (fst (handle_lookup s h n)).
-Proof. unfold handle_lookup. handler. Qed.
+Proof.
+  unfold handle_lookup. des; collect2;
+  repeat match goal with E : current_attrs ?s ?h ?p = (_, _) |- _ => ro_fact E (current_attrs_ro s h p); revert E end;
+  intros; chain.
+Qed.
 Lemma handle_readlink_ro s h : RO s (fst (handle_readlink s h)).
 Proof. unfold handle_readlink. handler. Qed.
 Lemma handle_fsx_ro s h f : RO s (fst (handle_fsx s h f)).
